@@ -1101,8 +1101,9 @@ def def_shapes(fn):
                                           len(st.targets) == 1):
             sh = ast.unparse(_Blank().visit(copy.deepcopy(st)))
             out.setdefault(t.id, []).append(sh)
-        if not isinstance(st, (ast.FunctionDef, ast.ClassDef)):
-          walk(st)
+        if not isinstance(st, ast.ClassDef):
+          walk(st)        # nested closures included: their locals are
+                          # locals of the reference function as well
   walk(fn)
   return out
 
